@@ -304,7 +304,7 @@ def run(prop, tier, spec, log, baseline=None, quiet=False):
             jobs.append(dict(base, witness=True))
     if tier == 'thorough' and spec.get('second_solver', True):
         # second opinion: the small-capacity queries again with z3 as CBMC's back end; verdicts must agree
-        jobs += [dict(j, solver='--z3', timeout=1200) for j in list(jobs) if not j['witness'] and j['n'] <= 2 and j['scen'] not in ('ADD_MOD', 'SUB_MOD')]
+        jobs += [dict(j, solver='--z3', timeout=300) for j in list(jobs) if not j['witness'] and j['n'] <= 1 and j['scen'] not in ('ADD_MOD', 'SUB_MOD')]
     log('-- E2/mir2c config=%s: %d functions translated, %d CBMC queries' % (spec.get('tag', 'std'), len(info['functions']), len(jobs)))
     with concurrent.futures.ThreadPoolExecutor(max_workers=spec.get('workers', 14 if tier == 'quick' else 10)) as ex:
         results = list(ex.map(cbmc_job, jobs))
